@@ -35,7 +35,7 @@ EXCUSES = {
 }
 
 MC_QUICK = {
-    "C13": ["queuer", "keyp", "drain", "custom", "keyp_stop"],
+    "C13": ["queuer", "keyp", "drain", "custom", "keyp_stop", "retry", "retry_keyp"],
     "C14": ["queuer", "sticky", "keyp", "rr", "custom", "keyp_stop", "sticky_stop"],
     "C15": ["queuer", "drain", "rl", "rr", "keyp", "keyp_stop"],
 }
@@ -46,7 +46,7 @@ MC_THOROUGH = {
 }
 # vacuity: each of these must be VIOLATED (the situation is reachable in the closed model)
 REACH = {
-    "C13": [("sticky", "NeverStale"), ("keyp_stop", "NeverClosing")],
+    "C13": [("sticky", "NeverStale"), ("keyp_stop", "NeverClosing"), ("retry", "NeverRetried"), ("retry", "NeverExhausted"), ("retry_keyp", "NeverRetried")],
     "C14": [("sticky", "NeverStale"), ("sticky", "NeverExclBad"), ("keyp_stop", "NeverClosing"), ("sticky_stop", "NeverParked")],
     "C15": [("queuer", "NeverDrainingSlotReplaced"), ("drain", "NeverDrained"), ("keyp_stop", "NeverClosedCastFails")],
 }
